@@ -52,7 +52,8 @@ RULE = ('cases: synthesized ELF images = class x byte order x e_machine (the 5 t
         '(out-of-domain). distinct = hash(kind, abstract); non-trivial = at least one section or segment')
 
 EM_SPECIAL = [40, 183, 62, 8, 243]            # ARM, AARCH64, X86_64, MIPS, RISCV
-EM_NAMED = [0, 1, 2, 3, 4, 20, 21, 22, 42, 43, 50, 93, 94, 164, 224, 247, 252, 258, 21569, 118, 10]
+EM_NAMED = [0, 1, 2, 3, 4, 20, 21, 22, 41, 42, 43, 50, 93, 94, 164, 224, 247, 252, 258, 21569, 118, 10]
+WIDE_HASH = (22, 41)                          # EM_S390, EM_ALPHA: 64-bit SysV hash entries in ELF64
 EM_UNKNOWN = [11, 12, 16, 24, 35, 121, 130, 145, 159, 182, 184, 225, 242, 244, 259, 0x1234, 0xfffe, 0xffff]
 OSABI = [0, 0, 0, 1, 2, 3, 6, 9, 12, 64, 97, 255, 5, 18, 100, 200]
 E_TYPE = [0, 1, 2, 3, 4, 0xff00, 0xffff, 5, 0x1234, 0xfe00]
@@ -107,10 +108,12 @@ def _rand_word(rng, bits):
     return rng.getrandbits(bits)
 
 
-def _hash_blob(rng, le, is64, gnu):
+def _hash_blob(rng, le, is64, gnu, wide=False):
     e = '<' if le else '>'
     if not gnu:
         nb, nc = rng.randint(0, 3), rng.randint(0, 4)
+        if wide:        # ELF64 Alpha / s390x: 64-bit entries
+            return struct.pack(e + 'QQ', nb, nc) + bytes(rng.getrandbits(8) for _ in range(8 * (nb + nc)))
         return struct.pack(e + 'II', nb, nc) + bytes(rng.getrandbits(8) for _ in range(4 * (nb + nc)))
     nb, bs = rng.randint(0, 3), rng.randint(0, 2)
     return (struct.pack(e + 'IIII', nb, rng.getrandbits(8), bs, rng.getrandbits(5)) +
@@ -216,7 +219,7 @@ def make_case(rng, opts=None):
         if reqs[i] == 'attr':
             blobs['body%d' % i] = b'A' + bytes(rng.getrandbits(8) for _ in range(rng.randint(0, 6)))
         elif reqs[i] == 'hash':
-            blobs['body%d' % i] = _hash_blob(rng, le, is64, False)
+            blobs['body%d' % i] = _hash_blob(rng, le, is64, False, wide=is64 and machine in WIDE_HASH)
         elif reqs[i] == 'gnuhash':
             blobs['body%d' % i] = _hash_blob(rng, le, is64, True)
     for tag, b in blobs.items():
@@ -465,6 +468,10 @@ def gen(ctx):
                 cases.append(('image', make_case(rng, dict(is64=is64, le=le, machine=mach))))
             cases.append(('image', make_case(rng, dict(is64=is64, le=le, n=0, m=0, nonzero_pad=True))))
             cases.append(('image', make_case(rng, dict(is64=is64, le=le, n=0, m=2, nonzero_pad=True))))
+    # a SysV hash section on the two machines whose ELF64 psABI has 64-bit hash entries (and on their ELF32 forms)
+    for is64 in (False, True):
+        for mach in WIDE_HASH:
+            cases.append(('image', make_case(rng, dict(is64=is64, machine=mach, n=3, force_sh_type=5))))
     for _ in range(N):
         cases.append(('image', make_case(rng)))
     # malformed variants of well-formed images (outside the theorem's domain: model vs impl only)
